@@ -13,7 +13,7 @@ CLAIMS = {
    note="Decides the crash/typing/termination clauses, not 'bounded time' quantitatively nor panics inside the generated matcher's buffer indexing (relies on the end-symbol sentinel, compared as boilerplate), out-of-memory or stack depth for pathological nesting. Trusted: go/ssa, the PEG reader and the abstract stack interpreter in /verif/checker.", ref="§3.D, §3.E, §4 C02"),
  "C03": dict(cat="other", tech="static analysis: inductive postcondition over the retrieve family (go/ssa dominators), type-assertion / nil-guard / interface-equality inventories, size-change termination, zone abstract interpretation of subscripts",
    text="Structural: a retrieve-family function that returns a nil error has made its sink non-empty (so success is never empty and result[0] reads are in range); the only types ever converted to the runtime-error interface are the three documented ones and ErrorFunctionFailed is built only on the failure branch of a user-function call; no explicit panic, no unguarded reflect.TypeOf(nil).String(), no unchecked assertion on caller data outside validated comparator operands; recursion descends, loops are bounded; subscript arithmetic cannot overflow or leave [0,len).",
-   note="Not decided: the index expressions of the filter list protocol (valueList[0], left[index] in AND/OR, rightValues[0]) whose safety rests on a relational length invariant — listed as assumed obligations in the evidence; time bounds beyond termination.", ref="§3.E, §3.F, §3.G, §4 C03"),
+   note="Partly decided since: left[index]/right[index] in AND/OR/NOT are only reached on paths where both lists are known not to be one-element lists, and X[0] only under len(X)==1 (V-BOOL); rightValues[0] is read after validation of its list succeeded (V-VALIDATED); a comparison of two per-member operands cannot be built (V-TWO-CURRENT). Still assumed: that every computed list has length 1 or the member count (valueList[0] in the filter). Time bounds beyond termination are not decided.", ref="§3.E, §3.F, §3.G, §4 C03"),
  "C04": dict(cat="proof", tech="static analysis: whole-package Andersen points-to + write-effect analysis over go/ssa",
    text="Absence of an effect: every instruction reachable from the evaluation closure that can write memory (store, map update, append, copy, delete, clear, writing library call) is an obligation; it is discharged when the points-to set of the written cells contains no object of the caller's document (or of a value returned by a user function). All obligations are discharged on every run; plus: library calls that receive document memory are tabled read-only, and the accessor Set closures are unreachable from any library entry point. This covers every path, document and call history, which is why it can be claimed as a proof rather than a sampled check.",
    note="Trusted base: go/types+go/ssa (x/tools v0.29.0), the ~1.3 kLOC regions engine, the library-call effect table, absence of unsafe/cgo/linkname/reflect mutation (checked each run). User functions and explicit Accessor.Set calls are outside the claim by the property's own wording.", ref="§3.A, §4 C04"),
@@ -28,37 +28,37 @@ CLAIMS = {
    note="Assumes sort.StringSlice.Sort sorts byte-wise (stdlib). Order is structural in this code base, which is why a static rule decides it for all maps and insertion orders, where tests only sample Go's randomised iteration.", ref="§3.B, §4 C07"),
  "C08": dict(cat="other", tech="static analysis: sibling cross-check of node retrieve methods (argument forwarding to next, fan-out loops) on go/ssa",
    text="Partial, structural: every node hands `next` the same root, the same sink and exactly the child it selected (map[key] for the key tested, list[index], the function result, or current/root), for every selected child, and a failing branch never leaves the fan-out loop (errors are only accumulated and consulted after the loop when the sink is empty).",
-   note="Does NOT decide the behavioural statement itself: that the chain was linked so that `next` is Q on every branch (builder logic; the live `$..['a','b'].c` defect is in that part) and the relational equality of three retrievals.", ref="§3.F, §4 C08"),
+   note="Also decided (added later): every per-node setting the parser applies to a node that may be a multi-name selector (next link, texts, accessor flag) reaches the member nodes the selector evaluates (tree-walker agreement, rule N-WALK — this found and fixed the `$..['a','b'].c` defect); presence of a member is decided by comma-ok lookups only (null member = member); no loop walks a list its callees can reach and overwrite. Does NOT decide the relational equality of the three retrievals as such.", ref="§3.F, §4 C08"),
  "C09": dict(cat="other", tech="static analysis: end-to-end wiring check operator token -> action -> builder -> comparator type -> machine comparison (grammar + go/ssa), mirror table, precedence shape of the grammar",
    text="Partial, structural: for the six comparison tokens the composition grammar alternative -> action -> builder (pop order) -> comparator constructed -> floating-point operator in its method is the identity on operator meaning; the swapped path of each ordering builder constructs the mirror comparator with both operands exchanged; `!=` is NOT(==); `||` binds looser than `&&`, looser than comparison/parentheses/`!`, with (left,right) built in pop order.",
-   note="Does NOT decide the Boolean-algebra clause: the index-wise merge of per-member lists in AND/OR/NOT and the length-1 whole-match convention are value dependent.", ref="§3.F, §4 C09"),
+   note="Also decided (added later): the per-node half of the Boolean-algebra clause — a symbolic execution of the AND / OR / NOT nodes checks, for every path and every path through the merge loop, the returned list's truth value at a member against the operator's truth table, with the length-1 whole-match convention as path facts (V-BOOL); no query writes into or returns the member list it was given, so sibling operands see the same members (V-INPUT-PURE, which found and fixed `$[?(@.x != $.y || @.c)]`); two per-member operands are rejected for every comparator (V-TWO-CURRENT). Does NOT decide the composition over whole filter expressions as a relation between query results.", ref="§3.F, §4 C09"),
  "C10": dict(cat="other", tech="static analysis: accept-map extraction from validator type switches, literal-kind -> validator agreement, validated-before-asserted dominance (go/ssa + go/types)",
    text="Partial, structural: each literal kind selects a validator that keeps exactly that JSON type (numbers: float64, and json.Number normalised to float64 on every path); ordering operators and regex embed the numeric / string validator and assert exactly the kept type after skipping the absence marker; path-vs-path uses reflect.DeepEqual with the permissive validator; a mistyped or missing operand is blanked, never asserted; the comparator call is dominated by successful validation of both operand lists.",
    note="Does NOT decide: which operand ends up on the right when both are non-member operands (the live `$.a == 1` vs `1 == $.a` json.Number discrepancy), nor DeepEqual's numeric semantics across decodings.", ref="§3.F, §4 C10"),
  "C11": dict(cat="other", tech="static analysis: zone (difference-bound matrix) abstract interpretation with trace partitioning over the subscript functions (go/ssa), 64- and 32-bit int",
    text="Totality half: for every start/end/step/length no arithmetic operation on subscript values overflows, every index stored into the returned slice lies in [0,len-1], buffer writes of ascending loops are in range, and every loop's induction variable moves by a non-zero amount towards its bound (termination).",
-   note="Does NOT decide exactness w.r.t. Python slicing (a numerical property). The buffer bound of the descending loop needs a sum invariant outside the zone domain and is listed as an assumed obligation. Input model: subscript numbers in [minInt,maxInt], len in [0,maxInt/16].", ref="§3.G, §4 C11"),
+   note="Does NOT decide exactness w.r.t. Python slicing (a numerical property; seeded changes C11b, C11c are not detected). The buffer bound of the descending loop is proved by an iteration-count lemma built into the engine (DESIGN §0a); nothing is assumed. Also: no subscript loop walks an index list that nested steps can overwrite (R-ITER-STABLE). Input model: subscript numbers in [minInt,maxInt], len in [0,maxInt/16].", ref="§3.G, §4 C11"),
  "C12": dict(cat="other", tech="static analysis: emission-site pairing (plain vs accessor branch) and flag-clearing coverage of retrieve edges (go/ssa + call graph)",
    text="Partial, structural: results are wrapped at the same three emission sites, under the node's own flag, around the very value the plain branch emits; the pass that clears the accessor flag for function arguments and filter operands reaches every node that can emit through any retrieve edge (next, inner identifiers of a multi-name selector, its union twin), and every place that attaches a parameter chain runs that pass.",
-   note="Does NOT decide equality of the two result sequences as such (follows only together with C01-style correctness).", ref="§3.F, §4 C12"),
+   note="Also: every node construction takes the parser's accessor flag (N-CTOR), tree walkers agree on the member edges (N-WALK), null members are members (N-PRESENCE). Does NOT decide equality of the two result sequences as such (follows only together with C01-style correctness).", ref="§3.F, §4 C12"),
  "C13": dict(cat="other", tech="static analysis: shape check of every Accessor{Get,Set} closure pair against the plain emission (go/ssa free-variable and effect analysis)",
    text="Large part, structural: at the map and list emission sites Get re-reads container[key] and Set is exactly one store of its argument into that same container[key], both capturing the very container/key the plain branch reads (not the value); at the any-value site Get returns the captured value and Set is nil; only root / current-root / function nodes use the any-value emitter.",
    note="Does NOT decide that the accessor at result index i belongs to the location a specification predicts (needs C01).", ref="§3.F, §4 C13"),
  "C14": dict(cat="other", tech="static analysis: call-shape rules for function nodes (once per invocation, argument provenance, guarded array unwrapping), lookup order, error provenance (go/ssa)",
    text="Partial, structural: the filter-function node calls the user function exactly once per invocation with its `current` and forwards the result; the aggregate node evaluates its parameter into a private pooled sink, calls the function exactly once with that sink's list, or with element 0 as an array only under the parameter's not-value-group test and a successful checked assertion; filter functions are looked up before aggregates; ErrorFunctionFailed is built only on the failure branch of that call.",
-   note="Does NOT decide that the value-group flag consulted is correct for the chain (the live `$.a.*.f()` defect) nor left-to-right application of chained functions (builder logic).", ref="§3.F, §3.E, §4 C14"),
+   note="Also: the root / current-root classification of an operand is applied below all function wrappers (N-HEAD); the step after a multi-name selector is linked to its members (N-WALK). Does NOT decide that the value-group flag consulted is correct for the chain (the live `$.a.*.f()` defect) nor left-to-right application of chained functions (builder logic).", ref="§3.F, §3.E, §4 C14"),
  "C15": dict(cat="other", tech="static analysis: per-node agreement of navigated container kinds, expected-kind constant, found-type source with nil guard, miss => MemberNotExist (go/ssa + go/types)",
    text="Partial, structural: for every node type the set of dynamic types it navigates into agrees with the expected-kind string of the ErrorTypeUnmatched it builds; the found string is \"null\" for nil and reflect.TypeOf(current).String() of the same value otherwise (nil-guarded); a key/index miss on a value of the right container type yields ErrorMemberNotExist; each error embeds the raising node's own descriptor.",
-   note="Does NOT decide which of several branch errors is reported (deepest / tie rule): depends on text lengths and traversal order.", ref="§3.F, §4 C15"),
+   note="Also: every branch error of a fan-out loop reaches the ranking helper unless results exist (N-DEEPEST), and the texts the ranking and the message use are set on every node that can fail, member nodes of a multi-name selector included (N-WALK — found and fixed `path=*`). Does NOT decide which of several ranked errors wins for a given document (depends on text lengths and traversal order).", ref="§3.F, §4 C15"),
  "C16": dict(cat="other", tech="static analysis: value-flow slice from parser constructor to map lookup (go/ssa) + translation-validated character classes of the identifier rules",
    text="Partial, structural: the key string handed to the single-identifier constructor reaches the map lookup through stores/loads/parameter passing only (no conversion, case mapping, trimming or slicing on the way); the character classes and escape alternatives the running parser accepts for identifiers are those of the published grammar (translation validation).",
-   note="Does NOT decide that the three unescape routines invert JSON-style escaping for every string (string-transducer equivalence).", ref="§3.F, §3.C, §4 C16"),
+   note="Also: both quote helpers return only what the one JSON string decoder returned, and that decoder returns only what encoding/json filled (U-DECODE). Does NOT decide that the quote-conversion loop of the single-quote helper is a correct transducer for every string.", ref="§3.F, §3.C, §4 C16"),
  "C17": dict(cat="translation_validation", tech="static analysis: decompilation of the generated goto-template parser back to PEG and rule-by-rule equivalence with jsonpath.peg; action ASTs compared; unit (rune vs byte) discipline; presence/dominance of semantic restrictions",
    text="Translation validation of jsonpath.peg.go against jsonpath.peg: every one of the grammar's rules is decompiled from the generated matcher and shown equivalent to its source rule (including -switch rewriting side conditions), every action body in Execute equals the grammar's action as Go AST, the engine boilerplate has the recorded shape; every documented semantic restriction guards construction; the reported position is a rune index and `near` is sliced in the same unit; the catch-all alternative is total and starts where the longest jsonpath prefix ends.",
    note="Not decided: that strconv/regexp accept what the prose calls 'valid for Go' (they are the definition). The boilerplate comparison is the one deliberate structural-shape check (file is generated, DO NOT EDIT).", ref="§3.C, §3.H, §4 C17"),
  "C18": dict(cat="other", tech="static analysis: whitespace policy table evaluated on the translation-validated grammar; no-space-in-semantic-capture rule; base-10 conversion flow (go/ssa)",
    text="Partial, structural: the `space` rule is adjacent on the stated side(s) of every token the property lists, in every alternative containing it (policy table checked on the grammar that translation validation ties to the running code); no capture whose text becomes a semantic value can contain `space`; index and number texts reach strconv.Atoi / ParseFloat(…,64) unmodified.",
-   note="Does NOT decide quote-style equivalence, `.x` vs `['x']` beyond 'same constructor', nor `$`-omission behaviour.", ref="§3.C, §3.F, §4 C18"),
+   note="Also: the closing lookahead of every separated list is the list's own separator, blanks included; both quote styles go through the same decoder on every path (U-DECODE). Does NOT decide `.x` vs `['x']` beyond 'same constructor', nor `$`-omission behaviour.", ref="§3.C, §3.F, §4 C18"),
  "C19": dict(cat="other", tech="static analysis: total-reset on every exit of Parse (go/ssa dominance), PEG reset coverage of rule-written variables, configuration provenance, tree closure (points-to)",
    text="Necessary core, structural: the action-state struct of the global parser is overwritten as a whole (or field-complete) in the deferred closure on every exit, also on panic; the PEG matcher's reset re-initialises every variable its rule closures write; configuration-derived fields are assigned only from the current call's argument under a length guard; nothing reachable from the returned function points at the Config's maps or at parser-owned memory, and no persistent parser state points into an earlier tree.",
    note="Not decided: equality of outcomes across histories as such (behavioural).", ref="§3.A, §4 C19"),
